@@ -32,7 +32,7 @@ ASSUMPTIONS = [
 ]
 MANIFEST = {
     'level': 'exploration',
-    'technique': 'runtime monitoring of the real peer FSM under a virtual clock: online trace checker over FSM.change / transport write / API up-down events and remote-observed closes',
+    'technique': 'runtime monitoring of the real peer FSM under a virtual clock: online trace checker over FSM.change / transport write / API up-down events and remote-observed closes; connection cycles ended at every stage against the real exabgp process, up/down alternation judged on what its real helper process is told',
     'text': 'Seeded random schedules of connection/timer/fault events drive the real Peer; the recorded trace is checked '
     'against the RFC 4271 transition relation, the Established preconditions, no-UPDATE-outside-Established, '
     'close-on-leaving-connected-state and up/down alternation.',
@@ -251,7 +251,7 @@ def judge_two(res: Result, case, rec):
 def plan(tier, seed):
     n = 16 if tier == 'quick' else 48
     per = 7 if tier == 'quick' else 60
-    return [{'shard': i, 'cases': per} for i in range(n)]
+    return [{'shard': i, 'cases': per} for i in range(n)] + [{'shard': 900 + i, 'daemon': True, 'part': i, 'cycles': 10 if tier == 'quick' else 40} for i in range(4 if tier == 'quick' else 8)]
 
 
 def judge(res: Result, case, rec):
@@ -397,7 +397,119 @@ def judge(res: Result, case, rec):
     res.extra['established_reached'] = res.extra.get('established_reached', 0) + est_count
 
 
+def run_daemon(desc):
+    """the REAL daemon with a real helper process listening to neighbor-changes: a scripted peer goes through N connections,
+    each ended at a random stage (before its OPEN, after it, with a NOTIFICATION, after establishment by a close / a
+    NOTIFICATION / a malformed header).  What the helper is told must alternate: an `up` only after the handshake was completed
+    on that connection, exactly one `down` for every `up` before the next `up`, and nothing `up` at the end when the last
+    connection was ended"""
+    import json as _json
+    import time
+
+    from vlib import daemon, exa
+    from vlib import refwire as rw
+    from vlib.props.c10 import bad_marker, open_body
+
+    res = Result()
+    r = random.Random(desc['seed'] * 6700417 + desc['part'])
+    text = 'process sink {\n    run @PY@ @DIR@/sink.py @DIR@/events;\n    encoder json;\n}\n' + exa.neighbor_text(families=[(1, 1), (2, 1)], extmsg=False, hold=90, extra='    api { processes [ sink ]; neighbor-changes; }')
+    d = daemon.Daemon(text, env={'exabgp_log_level': 'ERROR'})
+    plan_ = []
+    peer = None
+    try:
+        d.start()
+        good = open_body()
+        for ci in range(desc['cycles']):
+            end = r.choice(['close-before-open', 'close-after-our-open', 'notification-after-open', 'close-in-openconfirm', 'established-close', 'established-notification', 'established-bad-marker', 'established-close', 'established-notification'])
+            peer = d.accept(timeout=60)
+            established = False
+            if end != 'close-before-open':
+                t, body = peer.read_message(20)
+                if t != 1:
+                    raise daemon.Inconclusive(f'no OPEN from the daemon ({t})')
+                if end == 'notification-after-open':
+                    peer.conn.sendall(rw.notification(6, 2, b'bye'))
+                elif end != 'close-after-our-open':
+                    peer.conn.sendall(good)
+                    t, body = peer.read_message(20)
+                    if t != 4:
+                        raise daemon.Inconclusive(f'no KEEPALIVE after the OPENs ({t})')
+                    if end != 'close-in-openconfirm':
+                        peer.send(4)
+                        peer.drain(quiet=0.4, limit=5)
+                        established = True
+                        if end == 'established-notification':
+                            peer.conn.sendall(rw.notification(6, 4))
+                        elif end == 'established-bad-marker':
+                            peer.conn.sendall(bad_marker())
+                            peer.drain(quiet=0.3, limit=3)
+            plan_.append((end, established))
+            peer.close()
+            peer = None
+            time.sleep(0.3)
+        time.sleep(1.5)
+        lines = d.lines('events')
+        log = d.tail(3000)
+        alive = d.alive()
+    except daemon.Inconclusive as e:
+        daemon.skipped(res, str(e))
+        return res
+    finally:
+        try:
+            if peer is not None:
+                peer.close()
+        except Exception:  # noqa
+            pass
+        d.stop()
+    wit = {'connections': plan_, 'level': 'daemon'}
+    if not alive:
+        res.violation('C05/daemon:process-exits', 'the daemon exited during the connection cycles', dict(wit, log=log[-1500:]), 'daemon')
+        return res
+    if 'exception.unhandled' in log or 'Traceback' in log:
+        res.violation('C05/daemon:unhandled-exception', 'the daemon logged an unhandled exception: ' + log[log.find('Traceback') : log.find('Traceback') + 300], dict(wit, log=log[-2500:]), 'daemon')
+        return res
+    states = []
+    for ln in lines:
+        try:
+            ev = _json.loads(ln)
+        except ValueError:
+            res.violation('C05/daemon:helper-line-not-json', f'not JSON: {ln[:160]}', wit, 'daemon')
+            return res
+        if ev.get('type') == 'state':
+            states.append(ev['neighbor'].get('state'))
+    wit['states'] = states
+    ups = sum(1 for e, est in plan_ if est)
+    up = False
+    bad = False
+    for i, st in enumerate(states):
+        if st == 'up':
+            if up:
+                res.violation('C05/daemon:up-without-down', f'the helper was told "up" twice without a "down" in between (event {i})', wit, 'daemon')
+                bad = True
+                break
+            up = True
+        elif st == 'down':
+            up = False
+    if not bad and up:
+        res.violation('C05/daemon:no-down-after-the-last-session', 'every connection was ended, the last state the helper was told is "up"', wit, 'daemon')
+        bad = True
+    n_up = states.count('up')
+    if not bad and n_up > ups:
+        res.violation('C05/daemon:up-without-handshake', f'{n_up} "up" events for {ups} completed handshakes', wit, 'daemon')
+        bad = True
+    if not bad and n_up < ups:
+        res.violation('C05/daemon:established-session-not-reported', f'{ups} handshakes were completed (KEEPALIVE exchanged, End-of-RIB received), the helper was told "up" {n_up} times', wit, 'daemon')
+        bad = True
+    if not bad:
+        res.ok('daemon:updown', ('daemon', tuple(e for e, _ in plan_)))
+        for e, _ in plan_:
+            res.ok('daemon:end:' + e)
+    return res
+
+
 def run_shard(desc):
+    if desc.get('daemon'):
+        return run_daemon(desc)
     res = Result()
     r = random.Random(desc['seed'] * 9973 + desc['shard'])
     for i in range(desc['cases']):
@@ -444,5 +556,5 @@ def finish(merged, tier, seed):
         merged['inconclusive'].append('ESTABLISHED never reached')
 
 
-_REQ = ['established-pre', 'open-validated', 'refused-open-not-advanced', 'close-on-idle', 'write-state', 'updown', 'trace']
+_REQ = ['established-pre', 'open-validated', 'refused-open-not-advanced', 'close-on-idle', 'write-state', 'updown', 'trace', 'daemon:updown']
 REQUIRED_CLASSES = {'quick': _REQ, 'thorough': _REQ}
